@@ -19,7 +19,7 @@ from cidersim.prng import Digest, Rng, derive
 
 LEVEL = "exploration"
 PROP = "C09"
-BUDGET = {"quick": 200, "thorough": 2400}
+BUDGET = {"quick": 300, "thorough": 2400}
 CASE_TIMEOUT = 1200
 RTOL = 1e-10
 PERTURBS = [0xFF, 0x7F, 0xA5, 0x01]
@@ -2553,7 +2553,7 @@ def run_gen_faultenum(spec):
     kind, pseed, target = GEN_FAULTENUM[spec["seq"]]
     viol, stats, dg = [], Counter(), Digest()
     seen = set()
-    for k in range(spec["k0"], spec["k1"]):
+    for k in spec.get("klist") or range(spec["k0"], spec["k1"]):
         hist = gen_faultenum_history(kind, pseed, target, k)
         hist["scribble"] = False
         hist["near_dup"] = False
@@ -2691,6 +2691,12 @@ def plan(tier, seed, args):
         for q in range(nseq2):
             for k0 in range(1, npts2 + 1, chunk2):
                 fe.append({"hkind": "gen_faultenum", "seq": q, "k0": k0, "k1": min(k0 + chunk2, npts2 + 1)})
+            if tier == "quick":
+                # ... and a stride through the rest of the call (work buffers are written and
+                # released deep inside a pass, not only in its set-up phase); thorough takes all
+                rest = list(range(npts2 + 1 + (seed + q) % 4, 330, 4))
+                for i0 in range(0, len(rest), 12):
+                    fe.append({"hkind": "gen_faultenum", "seq": q, "k0": rest[i0], "k1": rest[i0] + 1, "klist": rest[i0 : i0 + 12]})
         cases = fe + cases  # the slow ones first
     return cases
 
@@ -2714,8 +2720,8 @@ def on_crash(spec, status):
     if spec.get("hkind") in ("faultenum", "gen_faultenum"):
         # one of the enumerated fault points took the process down: find it by running the
         # points of the chunk one by one
-        for k in range(spec["k0"], spec["k1"]):
-            one = dict(spec, k0=k, k1=k + 1)
+        for k in spec.get("klist") or range(spec["k0"], spec["k1"]):
+            one = dict(spec, k0=k, k1=k + 1, klist=None)
             r = run_pool([one], run_case, nproc=1, case_timeout=CASE_TIMEOUT)[0]
             if r is not None and "crashed" in r and fatal_signal(r["crashed"]) is not None:
                 if spec["hkind"] == "faultenum":
